@@ -17,7 +17,7 @@ def cbytes(b: bytes) -> str:
 
 ID = "C36"
 QUICK_N = 3000
-THOROUGH_N = 30000
+THOROUGH_N = 20000
 SHARD = 150
 RULE = ("kinds: dumps(value tree) 14%, load(bytes) 24%, pop(bytes) 20%, FlowReader.stream over small records with a "
         "stubbed from_state raising every exception class 24%, nesting around the interpreter recursion budget 2%, "
